@@ -35,6 +35,50 @@ def match_known(known, prop, sig):
     return None
 
 
+def search_changed_rows(changed, known, prop):
+    """a table theorem broke: the rows of the generated tables that changed are concrete inputs on which the library answers differently now. Those that are JSON inputs
+    are judged by the independent recognizer of the documented dialect (the oracle of the `jsonany` suite) on the implementation: a failure is a concrete failing input."""
+    import suites as S_
+    tails = {"alone": b"", "elem": b"1]", "key": b'":1}x'}
+    cands = []          # (cfg, limit, bytes)
+    for r_ in changed:
+        t_, row = r_["table"], r_["now"] or r_["baseline"] or ""
+        nums = lambda txt: [int(x) for x in re.findall(r"-?\d+", txt)]
+        try:
+            if t_.startswith("jsonfirst_"):
+                _, tail, build = t_.split("_")
+                cfg = {} if build == "plain" else {"ENABLE_COMMENTS": 1, "ENABLE_NAN": 1, "ENABLE_INFINITY": 1}
+                cands.append((cfg, 10, bytes([nums(row)[0]]) + tails[tail]))
+            elif t_ in ("parse_rows", "unicode_rows", "stream_rows"):
+                m_ = re.match(r"\(\[([^\]]*)\]", row)
+                if m_:
+                    cands.append(({}, 10, bytes(nums(m_.group(1)))))
+            elif t_ == "depth_rows":
+                k_, L_ = nums(row)[:2]
+                cands.append(({}, L_, b"[" * k_ + b"1" + b"]" * k_))
+            elif t_ == "doc_rows":
+                m_ = re.match(r"\(\[([^\]]*)\]", row)
+                if m_:
+                    cands.append(({}, 20, bytes(nums(m_.group(1)))))
+        except Exception:
+            continue
+    for cfg, lim, data in cands[:60]:
+        exe, err = ajlib.build_harness(cfg)
+        if not exe:
+            continue
+        su = S_.JsonAnySuite(cfg=cfg)
+        case = S_.Case("jsonde %d 0 %d %s" % (S_.cfgbits(cfg), lim, S_.hx(data)), text=data, lim=lim, rk=0, gid=0)
+        ho, _ = ajlib.run_both(exe, [case.line], driver=False)
+        try:
+            o = su.oracle(case, ho[0])
+        except Exception:
+            o = None
+        if o and not match_known(known, prop, o[0]):
+            return (o[0], o[1], {"suite": "jsonany", "cfg": cfg, "line": case.line, "implementation": ho[0], "what": o[1],
+                                 "found_by": "a generated table row that changed (lean/AJ/Gen/Tables.lean against tables_baseline.lean), judged by the dialect recognizer"})
+    return None
+
+
 def shrink_case(suite, case, exe, sig, rounds=6):
     """delta-debugging on the last hex field of a stateless operation line, keeping the oracle signature; returns the shrunk line or None"""
     import copy
@@ -355,10 +399,20 @@ def main():
             changed = fingerprint.table_rows_changed()
         except Exception:
             changed = []
+        found = None
         if changed:
             # a table theorem compares the model with rows obtained by calling the library: the rows that changed are concrete inputs on which the library answers differently now
             rep["generated_table_rows_that_changed"] = changed
-        violations.append(("proof", "proof obligations no longer check: " + "; ".join(proof_broken), rep))
+            try:
+                found = search_changed_rows(fingerprint.table_rows_changed(60), known, prop)
+            except Exception:
+                found = None
+        if found:
+            found[2]["broken"] = proof_broken
+            found[2]["generated_table_rows_that_changed"] = changed
+            violations.append(found)
+        else:
+            violations.append(("proof", "proof obligations no longer check: " + "; ".join(proof_broken), rep))
     elif proof_broken:
         notes.append("proof obligations no longer check: " + "; ".join(proof_broken))
         try:
